@@ -16,6 +16,34 @@ COMPARISONS = {"Eq": "eq", "NotEq": "ne", "Lt": "lt", "LtE": "le", "Gt": "gt", "
 DANGEROUS = {"eval", "exec", "compile", "__import__", "open", "input", "globals", "locals", "vars", "setattr", "delattr", "breakpoint"}
 
 
+TABLES = ("SAFE_FUNCTIONS", "SAFE_OPERATORS", "SAFE_COMPARISONS", "SAFE_BOOL_OPS", "SAFE_UNARY_OPS")
+
+
+def table_frame_violations():
+    """frame of the allow-list tables: the class-level literals checked by table[...] are what the walker consults -- nothing in the anchored
+    files rebinds or mutates them (else a registered tool body could become callable from an expression without passing the capability gate)"""
+    bad = []
+    for rel in (F, "operon_ai/core/agent.py"):
+        t2 = ast.parse(open(os.path.join(REPO, rel), encoding="utf-8").read())
+        for n in ast.walk(t2):
+            tgts = []
+            if isinstance(n, (ast.Assign, ast.Delete)):
+                tgts = n.targets
+            elif isinstance(n, (ast.AugAssign, ast.AnnAssign)):
+                tgts = [n.target]
+            for tg in tgts:
+                base = tg.value if isinstance(tg, ast.Subscript) else tg
+                if isinstance(base, ast.Attribute) and base.attr in TABLES:
+                    bad.append(f"{rel}:{n.lineno}: {ast.unparse(tg)} is assigned outside the class-level literal (the allow-list would no longer be the checked table)")
+            if isinstance(n, ast.Call) and isinstance(n.func, ast.Attribute) and n.func.attr in ("update", "setdefault", "pop", "clear", "popitem", "__setitem__") \
+                    and isinstance(n.func.value, ast.Attribute) and n.func.value.attr in TABLES:
+                bad.append(f"{rel}:{n.lineno}: {ast.unparse(n.func)}(...) mutates an allow-list table")
+            if isinstance(n, ast.Call) and isinstance(n.func, ast.Name) and n.func.id == "setattr" and len(n.args) >= 2 \
+                    and isinstance(n.args[1], ast.Constant) and n.args[1].value in TABLES:
+                bad.append(f"{rel}:{n.lineno}: setattr(..., {n.args[1].value!r}, ...)")
+    return bad
+
+
 def class_table(cls, name):
     for st in cls.body:
         tgt = st.targets[0] if isinstance(st, ast.Assign) else (st.target if isinstance(st, ast.AnnAssign) else None)
@@ -99,6 +127,7 @@ def main(which="C01"):
                 if isinstance(c, ast.Call) and not (isinstance(c.func, ast.Name) and c.func.id in ("all", "any", "next", "bool")):
                     bad.append(f"line {c.lineno}: SAFE_BOOL_OPS lambda calls {ast.unparse(c.func)}")
     ob("C01/SAFE_BOOL_OPS/table[pure]", bad)
+    ob("C01/tables/frame[allow-lists-are-the-checked-literals]", table_frame_violations())
     # ---- pathways: only the allowed externals
     allowed_calls = {
         "_glycolysis": {"ast.parse", "self._compute_node"},
